@@ -552,7 +552,9 @@ def gen(tier, rng):
     # random larger layouts
     for _ in range(120 if q else 2500):
         nparts = rng.randrange(1, 7)
-        parts = [rng.randrange(1, 60) for _ in range(nparts)]
+        if rng.random() < .25:
+            nparts = rng.randrange(9, 24)          # recordings split into many files (index lists touching a few of them)
+        parts = [rng.randrange(1, 60 if nparts < 9 else 8) for _ in range(nparts)]
         n = sum(parts)
         nch = rng.randrange(1, 5)
         dtype = rng.pick(['int16', 'int32', 'float32', 'float64', '>i2', '>f4', '>u4'])
@@ -574,6 +576,10 @@ def gen(tier, rng):
                 it = {'slice': [s, e]}
             else:
                 cand = set(rng.sample(range(n), min(n, rng.randrange(1, 12))))
+                if nparts >= 9 and rng.random() < .6:
+                    # a few rows taken from two or three of the many files, one of them a late one
+                    ks = sorted(rng.sample(range(nparts), rng.randrange(2, 4)) + [rng.randrange(8, nparts)])
+                    cand = {rng.randrange(b[k], b[k + 1]) for k in ks}
                 cand |= {x for x in (rng.pick(b[:-1]), rng.pick(b[1:]) - 1) if 0 <= x < n}
                 it = dict(list=sorted(cand))
             its.append([it, rng.pick(sels), rng.pick(PYKINDS + NPKINDS)])
